@@ -3,7 +3,7 @@ from fractions import Fraction
 
 from . import drv_error, drv_adwin, drv_change, drv_lfr, drv_kdq, drv_hdm, drv_nn, drv_pca, drv_md3
 
-NOFACTS = {"errs": 0, "w": 0, "nb": 0, "labels": 0}
+NOFACTS = {"errs": 0, "w": 0, "nb": 0, "labels": 0, "epochn": 0}
 
 
 def table(kind, a=0, b=0, c=1, restart=1, incs=(1,), hasrecs=False, epochbound=True, refrestart=False):
@@ -76,7 +76,16 @@ def from_kdq(t):
     else:
         tab = table("batch1", refrestart=True)
         fam = "KdqTreeBatch"
-    return {"cfg": tab, "ev": [ev(e["op"], e) for e in t["ev"]], "family": fam}
+    # epochn: how many samples the harness has fed since the epoch began (stream start, the update after a reported drift, reset())
+    out, epochn, prev = [], 0, "None"
+    for e in t["ev"]:
+        if e["op"] == "reset":
+            epochn = 0
+        elif e["op"] == "update":
+            epochn = 1 if prev == "drift" else epochn + 1
+        out.append(ev(e["op"], e, epochn=epochn))
+        prev = e["state"]
+    return {"cfg": tab, "ev": out, "family": fam}
 
 
 def from_hdm(t):
